@@ -10,6 +10,8 @@ spec/proc/RedisStop.tla  composition: Redis processor stop order with a session 
 spec/proc/RedisStopAll.tla  refinement of the upstream's stop-all: clientsMu, two backend clients, a backend reader handling a
                          redirection (quit check, createClient under the lock, Send into the target's bounded queue),
                          stop-all disciplines StopAllLock (hold / snapshot / none) x StopAllSignalsFirst
+spec/proc/HcMonitor.tla  the TCP processor's health monitor: ticker loop, probes with a deadline and their helper
+                         goroutines, ResetHealthCheck, Stop (HelperLeaksOnTimeout / ReconfigStartsSecondMonitor)
 spec/proc/TcpStop.tla    composition: TCP processor stop with one relayed connection and its watcher (FixQuit)
 
  1. exhaustive TLC runs of the repaired designs (safety, liveness under fairness, action properties);
@@ -34,6 +36,7 @@ import json
 import os
 import random
 import re
+import threading
 import time
 
 import kit
@@ -65,7 +68,9 @@ def listener_stats(ctx, n=40, workers=6, timeout=600):
 
 # processor scenarios that must have been executed (placement of Stop x backend behaviour); a run in which one
 # of them is missing or ended with an infrastructure error decides nothing about the composition windows
-REQUIRED_SCENARIOS = (["redis/redirect-in-flight-at-stop/fresh-target", "redis/redirect-in-flight-at-stop/full-target-queue",
+REQUIRED_SCENARIOS = (["tcp/hc-%s/%s" % (k, b) for k in ("tcp", "atcp", "redis") for b in ("responsive", "silent-after-accept", "closed")] +
+                      ["tcp/hc-reconfigured/%s" % c for c in ("interval", "thresholds", "checker-kind", "twice", "twice-silent")] +
+                      ["redis/redirect-in-flight-at-stop/fresh-target", "redis/redirect-in-flight-at-stop/full-target-queue",
                        "redis/connect-pending-at-stop/slow-accept", "redis/backend-queue-full-at-stop/silent",
                        "redis/refresh-blocked-at-stop/full-target-queue"] +
                       ["redis/%s/%s" % (w, b) for w in ("idle-conns", "request-waiting", "pipeline-waiting", "refresh-waiting")
@@ -120,8 +125,31 @@ def model_checking(ctx):
     jobs.append(("proc", "RedisStop", "MC_RedisStop_norefresh.cfg", stuck, False, False))
     jobs.append(("proc", "RedisStop", "MC_RedisStop_noprocquit.cfg", stuck, False, False))
     jobs.append(("proc", "TcpStop", "MC_TcpStop_fixed.cfg", None, True, True))
-    jobs.append(("proc", "TcpStop", "MC_TcpStop_pinned_benign.cfg", None, True, False))
+    # the health monitor of the TCP processor (refinement of hm.Stop()): the code as it is, and the two mutants
+    # "probe helper blocks for ever after a timeout" / "a reconfiguration starts a second monitor"
+    jobs.append(("proc", "HcMonitor", "MC_HcMonitor_code.cfg", None, True, True))
+    jobs.append(("proc", "HcMonitor", "MC_HcMonitor_helperleak.cfg", ["AfterStopAllReleased"], False, False))
+    jobs.append(("proc", "HcMonitor", "MC_HcMonitor_secondmonitor.cfg", ["AfterStopAllReleased", "NoProbeAfterStop"], False, False))
+    if ctx.thorough:
+        jobs.append(("proc", "TcpStop", "MC_TcpStop_pinned_benign.cfg", None, True, False))
     jobs.append(("proc", "TcpStop", "MC_TcpStop_pinned.cfg", stuck, False, False))
+    traps = [("ListenerWin", "MC_Listener_traps.cfg"), ("RedisStopWin", "MC_RedisStop_traps.cfg"),
+             ("RedisStopWin", "MC_RedisStop_traps_fullqueue.cfg"), ("RedisStopAllWin", "MC_RedisStopAll_traps.cfg"),
+             ("HcMonitorWin", "MC_HcMonitor_traps.cfg")]
+    if not ctx.thorough:
+        # Every TLC run is a JVM of its own (several seconds on a busy machine). The clean runs decide the
+        # verdict on the design and always run; the anti-vacuity runs (mutants that must fail, windows that
+        # must be reachable) only guard the models against becoming vacuous: the quick tier runs a sample
+        # of them that rotates with the seed (every one of them within 6 consecutive seeds), the thorough
+        # tier runs all.
+        clean = [j for j in jobs if j[3] is None]
+        mutants = [j for j in jobs if j[3] is not None]
+        k = 4
+        start = (ctx.seed * k) % len(mutants)
+        jobs = clean + [mutants[(start + i) % len(mutants)] for i in range(k)]
+        traps = [traps[(ctx.seed + i) % len(traps)] for i in range(2)]
+        ctx.cov["anti_vacuity_sample"] = {"mutants": [j[2] for j in jobs if j[3] is not None], "windows": [t[1] for t in traps],
+                                          "of": [len(mutants), 5]}
 
     def one(j):
         sub, mod, cfg, exp, count, cov = j
@@ -138,10 +166,8 @@ def model_checking(ctx):
         mod, cfg = t
         return t, ctx.tlc("proc", mod, cfg, workers=1, timeout=300)
 
-    with cf.ThreadPoolExecutor(max_workers=4) as ex:
-        for (mod, cfg), r in ex.map(trap, [("ListenerWin", "MC_Listener_traps.cfg"), ("RedisStopWin", "MC_RedisStop_traps.cfg"),
-                                            ("RedisStopWin", "MC_RedisStop_traps_fullqueue.cfg"),
-                                            ("RedisStopAllWin", "MC_RedisStopAll_traps.cfg")]):
+    with cf.ThreadPoolExecutor(max_workers=5) as ex:
+        for (mod, cfg), r in ex.map(trap, traps):
             if "@@UNREACHED" in r.stdout:
                 m = re.search(r'@@UNREACHED",\s*(.*?)>>', r.stdout, re.S)
                 raise kit.Inconclusive("vacuous model %s: windows never reached: %s" % (mod, " ".join((m.group(1) if m else "").split())))
@@ -163,7 +189,7 @@ def gen_behaviours(ctx):
     def one(c):
         cfg, num = c
         r = ctx.tlc("proc", "ListenerGen", cfg, mode="sim", workers=1, sim_num=num, sim_depth=200,
-                    seed=ctx.seed, deadlock=False, timeout=300)
+                    seed=ctx.seed, deadlock=False, timeout=1200)
         if r.timeout or (r.error and "@@BEH" not in r.stdout):
             raise kit.Inconclusive("behaviour generation failed (%s): %s" % (cfg, r.error[:500]))
         return [p for (tag, p) in r.prints if tag == "BEH"]
@@ -420,17 +446,32 @@ def run(ctx):
         return replay_artefact(ctx)
 
     t0 = time.time()
-    # the exhaustive runs go on in the background while behaviours are generated and replayed
+    limit_tlc(ctx)
+    # behaviours first (they are on the critical path), then the exhaustive runs go on in the background
+    # while the behaviours are replayed
+    n_emitted, uniq = gen_behaviours(ctx)
     bg = cf.ThreadPoolExecutor(max_workers=1)
     mc_future = bg.submit(model_checking, ctx)
     try:
-        run_conformance(ctx, t0, mc_future)
+        run_conformance(ctx, t0, mc_future, n_emitted, uniq)
     finally:
         bg.shutdown(wait=True)
 
 
-def run_conformance(ctx, t0, mc_future):
-    n_emitted, uniq = gen_behaviours(ctx)
+def limit_tlc(ctx, slots=3):
+    """At most `slots` TLC processes of this check at a time, each with two GC and two JIT threads: a check
+    that starts a dozen JVMs with sixteen GC threads each starves itself (and its neighbours) on a busy machine."""
+    os.environ["JAVA_TOOL_OPTIONS"] = (os.environ.get("JAVA_TOOL_OPTIONS", "") + " -XX:ParallelGCThreads=2 -XX:CICompilerCount=2").strip()
+    sem = threading.BoundedSemaphore(slots)
+    inner = ctx.tlc
+
+    def tlc(*a, **kw):
+        with sem:
+            return inner(*a, **kw)
+    ctx.tlc = tlc
+
+
+def run_conformance(ctx, t0, mc_future, n_emitted, uniq):
     kit.log("[c09] %d behaviours emitted (%d distinct) after %.1fs" % (n_emitted, len(uniq), time.time() - t0))
     per_window, total = (25, 1000) if ctx.thorough else (3, 60)
     behs = select_behaviours(ctx, uniq, per_window, total)
@@ -452,7 +493,7 @@ def run_conformance(ctx, t0, mc_future):
     race = kit.read_ndjson(rcf)
     all_jobs = jobs + scen + free + burst + race
     by_id = {j["id"]: j for j in all_jobs}
-    results = run_jobs(ctx, all_jobs, "all", workers=12, long_ms=10000, rerun_cap=3 if ctx.thorough else 1,
+    results = run_jobs(ctx, all_jobs, "all", workers=8, long_ms=10000, rerun_cap=3 if ctx.thorough else 1,
                        timeout=1500 if ctx.thorough else 240)
     kit.log("[c09] %d jobs executed after %.1fs" % (len(results), time.time() - t0))
     got = {r["id"] for r in results}
